@@ -531,3 +531,94 @@ func TestVerifC21Route(t *testing.T) {
 		w.put(out)
 	}
 }
+
+
+// ---------------------------------------------------------------------------------------------
+// availableRoutees on a real router struct whose map holds real routee actors, some of them stopped
+// ---------------------------------------------------------------------------------------------
+
+type c21AvailCase struct {
+	N        int
+	Stop     []int
+	Strategy string // rr | hash
+}
+
+type c21AvailOut struct {
+	Returned []int // indices of the routees handed out (sorted)
+	OK       bool
+	MapAfter []int // indices left in routeesMap (sorted)
+	Ring     []int // hash: indices of the members on the ring afterwards (sorted); nil when there is no ring
+	HasRing  bool
+}
+
+func TestVerifC21Available(t *testing.T) {
+	cases := verifReadJSONL[c21AvailCase](t, "c21_avail_in.jsonl")
+	w := newVerifWriter(t, "c21_avail_out.jsonl")
+	defer w.close()
+	ctx := context.Background()
+	sys, err := NewActorSystem("verifc21avail", WithLogger(log.DiscardLogger))
+	if err != nil {
+		t.Fatal(err)
+	}
+	if err := sys.Start(ctx); err != nil {
+		t.Fatal(err)
+	}
+	defer func() { _ = sys.Stop(ctx) }()
+	time.Sleep(100 * time.Millisecond)
+	for ci, c := range cases {
+		opts := []RouterOption{WithRoutingStrategy(RoundRobinRouting)}
+		if c.Strategy == "hash" {
+			opts = []RouterOption{WithConsistentHashRouter(func(any) string { return "k" })}
+		}
+		x := newRouter(c.N, &verifC21Routee{}, log.DiscardLogger, opts...)
+		x.name = fmt.Sprintf("c21-avail-%d", ci)
+		idx := map[string]int{}
+		pids := make([]*PID, c.N)
+		for i := 0; i < c.N; i++ {
+			p, err := sys.Spawn(ctx, fmt.Sprintf("c21-avail-%d-%d", ci, i), &verifC21Routee{})
+			if err != nil {
+				t.Fatal(err)
+			}
+			pids[i] = p
+			idx[p.ID()] = i
+			x.routeesMap[p.ID()] = p
+		}
+		x.rebuildHashRing()
+		for _, i := range c.Stop {
+			_ = pids[i].Shutdown(ctx)
+		}
+		for _, i := range c.Stop {
+			for tries := 0; tries < 5000 && pids[i].IsRunning(); tries++ {
+				time.Sleep(time.Millisecond)
+			}
+		}
+		routees, ok := x.availableRoutees()
+		out := c21AvailOut{OK: ok, Returned: []int{}, MapAfter: []int{}}
+		for _, r := range routees {
+			out.Returned = append(out.Returned, idx[r.ID()])
+		}
+		for id := range x.routeesMap {
+			out.MapAfter = append(out.MapAfter, idx[id])
+		}
+		if x.ring != nil {
+			out.HasRing = true
+			seen := map[int]bool{}
+			out.Ring = []int{}
+			for _, m := range x.ring.ring {
+				if !seen[idx[m]] {
+					seen[idx[m]] = true
+					out.Ring = append(out.Ring, idx[m])
+				}
+			}
+			sort.Ints(out.Ring)
+		}
+		sort.Ints(out.Returned)
+		sort.Ints(out.MapAfter)
+		w.put(out)
+		for _, p := range pids {
+			if p.IsRunning() {
+				_ = p.Shutdown(ctx)
+			}
+		}
+	}
+}
